@@ -154,6 +154,32 @@ def edit_in_place(rng, d, t):
     return d2
 
 
+class _Tagged:
+    """a plain mixin, as an application that decorates its own node classes would write"""
+    tag = None
+
+
+_SUBCLASSES = {}
+
+
+def user_subclasses(o, rng, share=0.5):
+    """turn a share of the nodes of `o` into instances of user-defined subclasses whose FIRST base is a plain mixin
+    (`class TaggedWord(Tagged, Word)`): everything the library does by class -- handler lookup along the class
+    hierarchy, isinstance tests, cloning with `type(self)` -- must treat them as the luqum class they derive from
+    (seeded C08-G, C15-G: the hierarchy walked through `__base__`, which follows the first base only).
+    Returns the number of nodes re-classed."""
+    n = 0
+    for x in all_nodes(o):
+        base = type(x)
+        if base.__module__ != "luqum.tree" or base.__name__ == "NoneItem" or rng.random() >= share:
+            continue
+        if base not in _SUBCLASSES:
+            _SUBCLASSES[base] = type("Tagged" + base.__name__, (_Tagged, base), {})
+        x.__class__ = _SUBCLASSES[base]
+        n += 1
+    return n
+
+
 def share_equal_subtrees(o):
     """make structurally identical sub-trees (same dump, layout included) ONE object, as a program that builds a
     query from parts does (`fg = FieldGroup(...); AndOperation(SearchField("f", fg), Plus(fg))`). Returns the number
